@@ -82,6 +82,25 @@ pub fn miri_main(file: &str, shard: (u64, u64)) -> i32 {
 }
 
 fn run_miri_stage(id: &str, stride: usize) -> PostRun {
+    use std::process::Command;
+    let exe = std::env::current_exe().unwrap_or_default();
+    // 1. case list, natively
+    let list = Command::new(&exe).args(["miri-cases", id, &stride.to_string()]).output();
+    let list = match list {
+        Ok(o) if o.status.success() => String::from_utf8_lossy(&o.stdout).to_string(),
+        _ => {
+            let mut p = PostRun::default();
+            p.machinery_errors.push("Miri stage: could not produce the case list".into());
+            return p;
+        }
+    };
+    run_miri_list(id, list, &format!("the reduced enumeration (37 stackings x {{0,1}} deviation x boundary cuts and every 4th byte of the innermost layer, every {}. deviating packet)", stride))
+}
+
+/// Executes the cases of `list` (lines `MIRI-CASE <n> ...`, interpreted by `epmc miri <id> <file>`) under
+/// `cargo +nightly miri run`, one interpreter per core. Miri is the monitor (out-of-bounds, uninitialised reads,
+/// provenance, alignment, invalid values); it stops a shard at its first undefined behaviour.
+pub fn run_miri_list(id: &str, list: String, what: &str) -> PostRun {
     use std::process::{Command, Stdio};
     let mut p = PostRun::default();
     let exe = std::env::current_exe().unwrap_or_default();
@@ -89,15 +108,6 @@ fn run_miri_stage(id: &str, stride: usize) -> PostRun {
     let tdir = exe.parent().and_then(|d| d.parent()).map(|d| d.to_path_buf()).unwrap_or_else(|| "/verif/target".into());
     let target = tdir.join("miri");
     let t0 = std::time::Instant::now();
-    // 1. case list, natively
-    let list = Command::new(&exe).args(["miri-cases", id, &stride.to_string()]).output();
-    let list = match list {
-        Ok(o) if o.status.success() => String::from_utf8_lossy(&o.stdout).to_string(),
-        _ => {
-            p.machinery_errors.push("Miri stage: could not produce the case list".into());
-            return p;
-        }
-    };
     let ncases = list.lines().filter(|l| l.starts_with("MIRI-CASE")).count();
     let file = tdir.join(format!("miri-cases-{}.txt", id));
     if std::fs::write(&file, &list).is_err() {
@@ -193,10 +203,10 @@ fn run_miri_stage(id: &str, stride: usize) -> PostRun {
     p.coverage.push((
         "miri_stage".into(),
         format!(
-            "{} of {} cases of the reduced enumeration (37 stackings x {{0,1}} deviation x boundary cuts and every 4th byte of the innermost layer, every {}. deviating packet) executed under `cargo +nightly miri run` in {} shards, {} shards ran to completion, {:.0} s",
+            "{} of {} cases of {} executed under `cargo +nightly miri run` in {} shards, {} shards ran to completion, {:.0} s",
             executed,
             ncases,
-            stride,
+            what,
             n,
             completed,
             t0.elapsed().as_secs_f64()
